@@ -37,6 +37,8 @@ type Endpoint struct {
 	Transform func(n int, b []byte) []byte
 	nwrites   int
 	MaxRead   int // if > 0, Read returns at most this many bytes (chunked delivery)
+	// FailWrites, once set, makes every Write return an error (the peer reset the connection)
+	FailWrites bool
 }
 
 // Pipe returns two connected endpoints (client, server).
@@ -88,6 +90,10 @@ func (e *Endpoint) Write(b []byte) (int, error) {
 	if e.closed {
 		e.p.mu.Unlock()
 		return 0, net.ErrClosed
+	}
+	if e.FailWrites {
+		e.p.mu.Unlock()
+		return 0, errors.New("peer: write: connection reset by peer")
 	}
 	n := e.nwrites
 	e.nwrites++
